@@ -679,6 +679,18 @@ class loop_if(x12_node):
                         yield c
 
 
+class _surplus_element(object):
+    """
+    Stand-in map node for a data element position the segment definition does not have.
+    Used only to report "too many elements" at that position.
+    """
+    def __init__(self, seg_node, seq):
+        self.parent = seg_node
+        self.seq = seq
+        self.data_ele = None
+        self.name = 'Element %s%02i' % (seg_node.id, seq)
+
+
 class segment_if(x12_node):
     """
     Segment Interface
@@ -970,6 +982,8 @@ class segment_if(x12_node):
             #self.logger.error(err_str)
             ref_des = '%02i' % (child_count + 1)
             err_value = seg_data.get_value(ref_des)
+            # report at the first surplus element, not at whatever element was validated last
+            errh.add_ele(_surplus_element(self, child_count + 1))
             errh.ele_error('3', err_str, err_value, ref_des)
             valid = False
 
@@ -1009,6 +1023,9 @@ class segment_if(x12_node):
             (bResult, err_str) = is_syntax_valid(seg_data, syn)
             if not bResult:
                 syn_type = syn[0]
+                # report at the first element the note names
+                if 0 < syn[1] <= child_count:
+                    errh.add_ele(self.get_child_node_by_idx(syn[1] - 1))
                 if syn_type == 'E':
                     errh.ele_error('10', err_str, None, syn[1])
                 else:
@@ -1479,18 +1496,21 @@ class composite_if(x12_node):
             if not good_flag:
                 err_str = 'At least one component of composite "%s" (%s) is required' % \
                     (self.name, self.refdes)
+                errh.add_ele(self)
                 errh.ele_error('2', err_str, None, self.refdes)
                 return False
 
         if self.usage == 'N' and not comp_data.is_empty():
             err_str = 'Composite "%s" (%s) is marked as Not Used' % (
                 self.name, self.refdes)
+            errh.add_ele(self)
             errh.ele_error('5', err_str, None, self.refdes)
             return False
 
         if len(comp_data) > self.get_child_count():
             err_str = 'Too many sub-elements in composite "%s" (%s)' % (
                 self.name, self.refdes)
+            errh.add_ele(self)
             errh.ele_error('3', err_str, None, self.refdes)
             valid = False
         for i in range(min(len(comp_data), self.get_child_count())):
